@@ -1,6 +1,8 @@
 package mem
 
 import (
+	"time"
+
 	"github.com/inbucket/inbucket/v3/pkg/config"
 	"github.com/inbucket/inbucket/v3/pkg/extension"
 	vrf "github.com/inbucket/inbucket/v3/pkg/zzvrf"
@@ -63,4 +65,62 @@ func VerifC09Race(maxkb int, pre int) {
 		vrf.Assert("ids-not-reused", id2 != "1")
 	}
 	vrf.Cover("race-done")
+}
+
+// VerifC09CapSize: mailbox cap and store-wide size limit together, with two deliveries running
+// concurrently: one must cap-evict from mailbox "a", the other pushes the store over maxkb while
+// the store's oldest message lives in "a" (so the size enforcer wants "a" too). Under every
+// explored schedule both deliveries return, nothing panics or deadlocks, the cap and the size limit
+// hold afterwards and the store keeps working.
+func VerifC09CapSize(pre int) {
+	iters := 1
+	if !vrf.Symbolic() {
+		iters = 200
+	}
+	for it := 0; it < iters; it++ {
+		cfg := config.Storage{MailboxMsgCap: 1, Params: map[string]string{"maxkb": "1"}}
+		st, err := New(cfg, extension.NewHost())
+		if err != nil {
+			return
+		}
+		_, perr := st.AddMessage(&vrfIn{mailbox: "a", subject: "p", src: vrf.ZeroBytes(500)})
+		vrf.Assert("prelude-noerr", perr == nil)
+		vrf.Preemptions(pre)
+		done := make(chan bool, 2)
+		go func() {
+			_, aerr := st.AddMessage(&vrfIn{mailbox: "a", subject: "s", src: vrf.ZeroBytes(300)})
+			done <- aerr == nil
+		}()
+		go func() {
+			_, aerr := st.AddMessage(&vrfIn{mailbox: "b", subject: "t", src: vrf.ZeroBytes(600)})
+			done <- aerr == nil
+		}()
+		got := 0
+		okAll := true
+		for got < 2 {
+			select {
+			case ok := <-done:
+				okAll = okAll && ok
+				got++
+			case <-time.After(3 * time.Second):
+				vrf.Assert("concurrent-deliveries-return", false)
+				return
+			}
+		}
+		vrf.Assert("operations-complete", okAll)
+		// the enforcer has settled once a further (synchronous) delivery has gone through it
+		_, aerr := st.AddMessage(&vrfIn{mailbox: "c", subject: "u", src: vrf.ZeroBytes(100)})
+		vrf.Assert("store-usable-afterwards", aerr == nil)
+		total := 0
+		for _, nm := range []string{"a", "b", "c"} {
+			ms, lerr := st.GetMessages(nm)
+			vrf.Assert("list-noerr", lerr == nil)
+			vrf.Assert("cap-holds", len(ms) <= 1)
+			for _, m := range ms {
+				total += int(m.Size())
+			}
+		}
+		vrf.Assert("size-limit-holds", total <= 1024)
+	}
+	vrf.Cover("capsize-done")
 }
